@@ -1118,6 +1118,9 @@ class FortranFile:
         curr_line = self.get_line(line_no, pp_content)
         if curr_line is None:
             return [], None, []
+        # A zero in column 6 marks, like a blank, the initial line of a statement
+        if self.fixed and FRegex.FIXED_ZERO.match(curr_line):
+            curr_line = curr_line[:5] + " " + curr_line[6:]
         # Search backward for prefix lines
         line_ind = line_no - 1
         pre_lines = []
